@@ -781,7 +781,15 @@ def handoff_case(ctx, case):
     P12.handoff_case(ctx, case)
 
 
+def scenario_case(ctx, case):
+    """the framed stream of the status exchange that opens a negotiating
+    connect(): frames of every length (C09's scenario machinery)"""
+    from props import c09_negotiation as P9
+    P9.scenario_case(ctx, case)
+
+
 COMPONENTS = {'flood': flood_case, 'handoff': handoff_case,
+              'scenario': scenario_case,
               'burst': burst_case,
               'writer': writer_case, 'reader': reader_case,
               'loop': loop_case, 'fuzz_stream': fuzz_stream_case,
@@ -1060,6 +1068,11 @@ def t_flood(ctx, version, compress, n, who):
     ctx.sample(case, 'flood')
 
 
+def t_status_lengths(ctx, lo, hi):
+    from props import c09_negotiation as P9
+    P9.t_status_lengths(ctx, lo, hi)
+
+
 def t_handoff(ctx):
     k = 0
     for v in (757, 47):
@@ -1076,6 +1089,8 @@ def tasks(tier):
     ncomb = len(FAMILY) * len(MODES) * 2
     tl = [('threshold_edges', t_threshold_edges, {}),
           ('handoff', t_handoff, {}),
+          ('status_lengths_a', t_status_lengths, dict(lo=200, hi=300)),
+          ('status_lengths_b', t_status_lengths, dict(lo=340, hi=420)),
           ('sessions', t_sessions, dict(n=40 if q else 1500)),
           ('burst', t_burst, dict(n=40 if q else 1500)),
           ('mutated_streams', t_fuzz_hyp, dict(n=400 if q else 20000))]
